@@ -230,20 +230,19 @@ Definition enc_regmode (o : operand) (rel : Z) : res (Z * list Z) :=
   | OAbs v => do w <- int16 v; Ok (31, [w])
   | ORelDef t => Ok (63, [enc_rel t rel])
   | ORel t => Ok (55, [enc_rel t rel])
-  | OAcc _ sym =>                            (* acN is an ordinary symbol here: relative mode, or undefined *)
-      match sym with Some t => Ok (55, [enc_rel t rel]) | None => Err ["undefined-symbol"] end
+  | OAcc _ => Err ["undefined-symbol"]      (* acN is an ordinary (undefined) symbol here *)
   end.
 
 Definition enc_fprm (o : operand) (rel : Z) : res (Z * list Z) :=
   match o with
-  | OAcc n _ => if (0 <=? n) && (n <=? 5) then Ok (n, []) else Err ["undefined-symbol"]
+  | OAcc n => if (0 <=? n) && (n <=? 5) then Ok (n, []) else Err ["undefined-symbol"]
   | OReg r => do r <- reg_val r; if r <? 6 then Ok (r, []) else Err ["implicit-accumulator"]
   | _ => enc_regmode o rel
   end.
 
 Definition enc_fpacc (st : stub) (o : operand) : res (Z * list Z) :=
   match o with
-  | OAcc n _ =>
+  | OAcc n =>
       if (0 <=? n) && (n <=? 5) then
         if n >=? 2 ^ bitness st then Err ["invalid-addressing"] else Ok (n, [])
       else Err ["invalid-addressing"]
@@ -282,14 +281,14 @@ Definition enc_stub (st : stub) (o : operand) (rel : Z) : res (Z * list Z) :=
   | SkFpRM => enc_fprm o rel
   | SkFpAcc => enc_fpacc st o
   | SkOffset =>
-      match plain_value o with
-      | Some t => do f <- enc_offset (unsigned_ st) (bitness st) t rel; Ok (f, [])
-      | None => Err ["unexpected-value"]
+      match o with
+      | ORel t => do f <- enc_offset (unsigned_ st) (bitness st) t rel; Ok (f, [])
+      | _ => Err ["unexpected-value"]
       end
   | SkImmediate =>
-      match num_value o with
-      | Some v => do f <- enc_imm (unsigned_ st) (bitness st) v; Ok (f, [])
-      | None => Err ["unexpected-value"]
+      match o with
+      | ORel v | OImm v => do f <- enc_imm (unsigned_ st) (bitness st) v; Ok (f, [])
+      | _ => Err ["unexpected-value"]
       end
   end.
 
